@@ -221,6 +221,8 @@ def run_case(idx, rng, P, rep):
 
     class Tgt(param.Parameterized):
         ev = Even(default=2)
+        go = param.Event(default=True)                  # (an Event may be declared 'set'; it falls back to False when assigned)
+        cgo = param.Event(default=True, constant=True)
         x = param.Number(default=1.0, bounds=(0, 10), allow_refs=True)
         y = param.Number(default=1.5, bounds=(0, 10), inclusive_bounds=(True, False), allow_refs=True)
         s = param.String(default='a', regex='^a', allow_refs=True)
@@ -320,10 +322,10 @@ def run_case(idx, rng, P, rep):
                        'unchecked-selector'])
     route = rng.choice(['inst', 'inst', 'update1', 'updateN', 'class'])
     if kind == 'plain-invalid':
-        tp = rng.choice(['x', 'y', 's', 'sel', 'nanp', 'ev'])
+        tp = rng.choice(['x', 'y', 's', 'sel', 'nanp', 'ev', 'go'])
         # (a complex number is a number: comparing it with the bounds is what fails, with a TypeError)
         bad = {'x': rng.choice([99, -1, 'str', float('nan'), 1 + 2j]), 'y': rng.choice([10, 'str', 2j]), 's': rng.choice(['zzz', 5]),
-               'sel': 'outsider', 'nanp': rng.choice(['str', [1]]), 'ev': rng.choice([3, 'odd', 7])}[tp]
+               'sel': 'outsider', 'nanp': rng.choice(['str', [1]]), 'ev': rng.choice([3, 'odd', 7]), 'go': rng.choice(['yes', 5, None])}[tp]
     elif kind == 'ref-invalid':
         tp = rng.choice(['x', 'y', 's'])
         src = rng.choice([s1, s2])
@@ -355,8 +357,8 @@ def run_case(idx, rng, P, rep):
         route = rng.choice(['inst', 'update1', 'updateN'])
         rep.count('ref_attempts')
     elif kind == 'constant':
-        tp = 'c'
-        bad = ('new', nxt())
+        tp = rng.choice(['c', 'c', 'cgo'])
+        bad = ('new', nxt()) if tp == 'c' else False
         route = rng.choice(['inst', 'update1', 'updateN'])
     elif kind == 'unchecked-selector':
         tp = rng.choice(['csel', 'rsel'])
@@ -376,7 +378,7 @@ def run_case(idx, rng, P, rep):
                 snap[('val', k, p)] = id(getattr(o, p))
             ws = o.param.watchers
             snap[('watchers', k)] = tuple(sorted((p, what, tuple(id(w) for w in lst)) for p, d in ws.items() for what, lst in d.items()))
-        for p in ('x', 'y', 's', 'sel', 'c', 'r', 'plain', 'csel', 'rsel', 'nanp', 'ev'):
+        for p in ('x', 'y', 's', 'sel', 'c', 'r', 'plain', 'csel', 'rsel', 'nanp', 'ev', 'go', 'cgo'):
             snap[('clsval', p)] = id(getattr(Tgt, p))
             snap[('clsflags', p)] = (Tgt.param[p].constant, Tgt.param[p].readonly)
         return snap
